@@ -24,6 +24,7 @@ import (
 	"os"
 	"path/filepath"
 	"testing"
+	"time"
 
 	"github.com/nuts-foundation/go-did/did"
 	"github.com/nuts-foundation/nuts-node/vdr/resolver"
@@ -159,6 +160,7 @@ func (e *c10Env) c18Judge(s *store, arrived map[int]bool, where string) {
 		v.expect("empty-metadata", id, &resolver.ResolveMetadata{}, !deact, deact, true)
 		v.expect("later-time", id, &resolver.ResolveMetadata{ResolveTime: &far}, !deact, deact, true)
 		v.expect("later-time+allow-deactivated", id, &resolver.ResolveMetadata{ResolveTime: &far, AllowDeactivated: true}, true, deact, true)
+		e.c18JudgeByTime(v, arrived, d, id)
 		if latest != nil {
 			hh := latest.Hash
 			if !deact { // (for a deactivated DID an older, active version may legitimately carry the same hash)
@@ -167,6 +169,55 @@ func (e *c10Env) c18Judge(s *store, arrived map[int]bool, where string) {
 			if m := v.expect("latest-hash+allow-deactivated", id, &resolver.ResolveMetadata{Hash: &hh, AllowDeactivated: true}, true, deact, true); m != nil && !m.Hash.Equals(hh) {
 				e.violate("c18:nuts:resolve-by-hash-returns-other-hash", "%s: Resolve(%s, hash %s) returns version %s", where, id, hh, m.Hash)
 			}
+		}
+	}
+}
+
+// c18JudgeByTime probes Resolve with a ResolveTime on both sides of (and exactly at) the signing time of every transaction
+// of the DID that has arrived, and half a second after it. Order-free reference: as soon as the requested time is at or
+// after the signing time of ANY accepted deactivation of the DID (and not before the DID's first transaction), the DID is
+// deactivated at that time — whatever was signed or arrived later, deactivated or not: without AllowDeactivated the call
+// fails (ErrDeactivated; ErrNotFound tolerated), with it the deactivated document comes back. Times before every
+// deactivation are not judged here (an earlier, active version may legitimately be resolved by time).
+func (e *c10Env) c18JudgeByTime(v c18Verdict, arrived map[int]bool, d int, id did.DID) {
+	var times []time.Time
+	var firstDeact, created time.Time
+	haveDeact, haveAny := false, false
+	var lowClock uint32
+	for i := range e.ev {
+		if !arrived[i] || e.ev[i].didIdx != d {
+			continue
+		}
+		t := e.ev[i].tx.SigningTime
+		times = append(times, t)
+		if e.ev[i].deact && (!haveDeact || t.Before(firstDeact)) {
+			firstDeact, haveDeact = t, true
+		}
+		// the DID exists from its first transaction on the timeline (lowest clock; the latest signing time among equals)
+		if !haveAny || e.ev[i].tx.Clock < lowClock || (e.ev[i].tx.Clock == lowClock && t.After(created)) {
+			lowClock, created, haveAny = e.ev[i].tx.Clock, t, true
+		}
+	}
+	if !haveDeact {
+		return
+	}
+	seen := map[int64]bool{}
+	for _, t := range times {
+		for _, probe := range []time.Time{t.Add(-time.Second), t, t.Add(500 * time.Millisecond), t.Add(time.Second)} {
+			if seen[probe.UnixMilli()] {
+				continue
+			}
+			seen[probe.UnixMilli()] = true
+			if probe.Before(firstDeact) || probe.Before(created) {
+				e.x.Class("time-probe:before-the-deactivation(not-judged)")
+				continue
+			}
+			if probe.Before(e.far.Add(-time.Hour)) {
+				e.x.Class("time-probe:at-or-after-a-deactivation-and-before-the-last-signing-time")
+			}
+			pt := probe
+			v.expect("time-at-or-after-deactivation", id, &resolver.ResolveMetadata{ResolveTime: &pt}, false, true, false)
+			v.expect("time-at-or-after-deactivation+allow-deactivated", id, &resolver.ResolveMetadata{ResolveTime: &pt, AllowDeactivated: true}, true, true, true)
 		}
 	}
 }
